@@ -85,10 +85,14 @@ def svcValsOk (ds : List Decl) (sid : Option Str) (seen : List Notify) (vs : Lis
   (ds.zip vs).all fun p => p.2.1 == p.1.name &&
     (match expectedVal p.1 sid seen with | some e => p.2.2 == e | none => true)
 
+/-- every service, by index -/
+def valsOkAux (js : JS) : Nat → List (List Decl) → List (List (Str × Option Val)) → Bool
+  | _, [], [] => true
+  | k, ds :: dr, vs :: vr => svcValsOk ds (grantedSid js k) js.seen vs && valsOkAux js (k + 1) dr vr
+  | _, _, _ => false
+
 def valsOk (decls : List (List Decl)) (js : JS) (vals : List (List (Str × Option Val))) : Bool :=
-  vals.length == decls.length &&
-  (List.range decls.length).all fun i =>
-    svcValsOk (decls.getD i []) (grantedSid js i) js.seen (vals.getD i [])
+  valsOkAux js 0 decls vals
 
 def outOk (o : Obs) : Bool :=
   match o.ev with
